@@ -1,6 +1,704 @@
-"""Behavioural specification rules evaluated per root on the outcomes of the slot interpreter
-(DESIGN.md §3).  Filled in incrementally; check_root returns a JSON-able digest."""
+"""Behavioural outcome schemas (DESIGN.md §3), evaluated on the exits of the slot interpreter.
+
+The tables below are written from the property statements: for every key-directed operation they
+say, per class of path (key found at slot h / not found and appended / not found), what the
+container must look like afterwards and what must be returned.  A path is classified from what
+happened on it, not from the source text:
+
+  hit(h)     user `==` answered true for (key of slot h, supplied key)            event 'hit'
+  append     a slot joined the live prefix (len += 1 with a written slot)        event 'append'
+  miss       every live key was compared with the supplied key, all answers no   MapState.examined
+
+The schemas are checked on *every* normal-return path that the interpreter produced for the root
+(generic K, V, N, arbitrary fill level, arbitrary answers of the user callbacks), in every build
+configuration the property asks for.
+"""
+import collections
+
+from .zone import Term
+from .state import OPTION, RESULT, UNIT
+from . import slots
+from .interp import tag_eq
+
+
+# ------------------------------------------------------------------------------ helpers
+def root_key(body):
+    """(self type path | None, trait short name | None, method name)"""
+    imp = body.impl or {}
+    tr = imp.get('trait')
+    slf = imp.get('self') or {}
+    path = slf.get('path')
+    if path is None and slf.get('k') == 'ref':
+        path = '&' + (slf['to'].get('path') or '?')
+    return (path, tr.split('::')[-1].split('<')[0] if tr else None, body.name)
+
+
+def vtag(v):
+    """provenance tag of an abstract value (None when it has none)"""
+    if not isinstance(v, tuple) or not v:
+        return None
+    if v[0] == 'opq':
+        return v[1]
+    if v[0] == 'unk':
+        return v[2]
+    if v[0] == 'tuple':
+        return ('tuple',) + tuple(vtag(x) for x in v[1])
+    return None
+
+
+def is_none(v):
+    return v[0] == 'adt' and v[1] == OPTION and v[2] == 0
+
+
+def some_of(v):
+    if v[0] == 'adt' and v[1] == OPTION and v[2] == 1:
+        return v[3][0]
+    return None
+
+
+def is_bool(v, b):
+    return v == ('bool', b)
+
+
+def stored(mid, idx, f):
+    return ('stored', mid, idx, f)
+
+
+def slot_ref(v, z, mid, idx, sub):
+    """v is a reference to field `sub` of the content of slot idx of container mid"""
+    return (v[0] == 'ref' and v[2][0] == 'pair' and v[2][1] == mid and z.entails_eq(v[2][2], idx)
+            and tuple(v[2][3]) == tuple(sub))
+
+
+class Path:
+    """one normal-return exit of a root, with the facts the schemas need"""
+
+    def __init__(self, E, body, st, val, subjects, argtags):
+        self.E = E
+        self.body = body
+        self.st = st
+        self.z = st.zone
+        self.val = val
+        self.subjects = subjects
+        self.arg = argtags
+        self.mid = subjects[0] if subjects else None
+        if self.mid is None:
+            # receiver materialised lazily (an enum): the one caller-owned container of the path
+            c = [m for m, ms in st.maps.items() if ms.borrowed and not ms.phantom and not ms.dead]
+            if len(c) == 1:
+                self.mid = c[0]
+        self.ms = st.maps.get(self.mid) if self.mid else None
+        ev = st.events
+        self.events = ev
+        self.hits = [e for e in ev if e[0] == 'hit' and e[1] == self.mid]
+        self.appends = [e for e in ev if e[0] == 'append' and e[1] == self.mid]
+        self.reads = [e for e in ev if e[0] == 'read' and e[1] == self.mid]
+        self.writes = [e for e in ev if e[0] == 'write' and e[1] == self.mid]
+        self.lens = [e for e in ev if e[0] == 'len' and e[1] == self.mid]
+        self.user = [e for e in ev if e[0] == 'user']
+
+    # --- state predicates
+    def len_is(self, delta):
+        ms = self.ms
+        if ms.len0 is None:
+            return False
+        if delta >= 0:
+            return self.z.entails_eq(ms.len, ms.len0, delta)
+        return self.z.entails_eq(ms.len0, ms.len, -delta)
+
+    def untouched(self):
+        """no slot of the subject container was read out, written or re-tagged on this path"""
+        return not self.ms.contents and not self.reads and not self.writes and not self.lens \
+            and not self.ms.holes and not self.ms.extras
+
+    def contents_are(self, expect):
+        """expect: list of (idx, (ktag, vtag)); the recorded overrides are exactly these"""
+        cs = list(self.ms.contents)
+        if len(cs) != len(expect):
+            return False
+        for idx, tags in expect:
+            found = False
+            for (i, t) in cs:
+                if self.z.entails_eq(i, idx):
+                    found = tag_eq(self.z, t, tags)
+            if not found:
+                return False
+        return True
+
+    def miss(self):
+        return self.E.miss_complete(self.st, self.mid)
+
+    def describe(self):
+        evs = [e for e in self.events if e[0] in ('hit', 'append', 'read', 'write', 'len', 'store', 'exhausted',
+                                                  'len-jump')]
+        return 'events=%s; container: %s contents=%s; returned %s' % (
+            [tuple(str(x) for x in e) for e in evs][:8], self.ms.describe() if self.ms else None,
+            [(str(i), t) for i, t in (self.ms.contents if self.ms else ())], short_val(self.val))
+
+
+def short_val(v, depth=0):
+    if not isinstance(v, tuple) or depth > 4:
+        return str(v)
+    if v and v[0] == 'adt':
+        return '%s#%d(%s)' % (v[1].split('::')[-1], v[2], ', '.join(short_val(x, depth + 1) for x in v[3]))
+    if v and v[0] == 'tuple':
+        return '(%s)' % ', '.join(short_val(x, depth + 1) for x in v[1])
+    return str(v)
+
+
+# ------------------------------------------------------------------------------ schema evaluators
+class Ctx:
+    def __init__(self, E, body, props):
+        self.E = E
+        self.body = body
+        self.props = props
+        self.classes = collections.Counter()
+
+    def req(self, rule, ok, prim, what, p, props=None):
+        E = self.E
+        E.oblig(rule, bool(ok), prim, what + ' -- ' + p.describe(), 'refuted', sample=prim + ' ok',
+                props=sorted(props or self.props))
+        return bool(ok)
+
+
+def insertion(ctx, p, k, v, keep_key, absent, present, full_none=None):
+    """find-or-append.  absent(idx) / present(h): predicates on the returned value."""
+    E, z, ms = ctx.E, p.z, p.ms
+    K, V = p.arg[k], (p.arg[v] if v is not None else ('tuple',))
+    nm = ctx.body.name
+    if p.appends:
+        ctx.classes['append'] += 1
+        a = p.appends[-1]
+        ok = len(p.appends) == 1 and not p.hits
+        ctx.req('OUT', ok, nm + ':append', 'a path both finds and appends, or appends twice', p)
+        idx = a[2]
+        ctx.req('ROUTE', tag_eq(z, a[3], K) and p.contents_are([(idx, (K, V))]), nm + ':append',
+                'on the not-found path the new slot must hold exactly (supplied key, supplied value) '
+                'and no other slot may change', p)
+        ctx.req('OUT', p.len_is(1) and z.entails_eq(idx, ms.len0), nm + ':append',
+                'on the not-found path len must grow by exactly one and the new entry sits at the old len', p)
+        ctx.req('OUT', absent(p, idx), nm + ':append-result', 'wrong result for an absent key', p)
+        return
+    if p.hits:
+        ctx.classes['hit'] += 1
+        h = p.hits[-1]
+        idx = h[2]
+        ctx.req('SCAN', tag_eq(z, h[3], K), nm + ':hit', 'the matching comparison was not against the supplied key', p)
+        want_k = K if keep_key is False else stored(p.mid, idx, 0)
+        ok = p.contents_are([(idx, (want_k, V))])
+        key_only = (not ok) and any(p.contents_are([(idx, (kk, V))]) for kk in (K, stored(p.mid, idx, 0)))
+        ctx.req('ROUTE', ok, nm + ':hit',
+                'on the found path slot h must hold (%s key, supplied value) and no other slot may change'
+                % ('the supplied' if keep_key is False else 'the originally stored'), p,
+                props=(ctx.props & {'C12', 'C18'}) if key_only else (ctx.props - {'C03'}))
+        ctx.req('OUT', p.len_is(0), nm + ':hit', 'len must not change when the key is already present', p)
+        ctx.req('OUT', present(p, idx), nm + ':hit-result', 'wrong result for a present key', p,
+                props=ctx.props | {'C12'})
+        return
+    ctx.classes['neither'] += 1
+    if full_none is not None:
+        ok = tag_eq(z, p.miss(), K) or p.miss() == ('<empty>',)
+        ctx.req('SCAN', ok, nm + ':full-miss', 'refusing the insertion requires a completed scan of the whole prefix '
+                'for the supplied key', p)
+        ctx.req('OUT', z.entails_eq(ms.len, ms.cap), nm + ':full-miss',
+                'the insertion may be refused only when the container is full (len == N)', p,
+                props=ctx.props | {'C03'})
+        ctx.req('OUT', p.untouched() and p.len_is(0), nm + ':full-miss', 'a refused insertion must change nothing', p,
+                props=ctx.props | {'C03'})
+        ctx.req('OUT', full_none(p), nm + ':full-miss-result', 'wrong result for a refused insertion', p,
+                props=ctx.props | {'C03'})
+        return
+    ctx.req('OUT', False, nm + ':neither',
+            'the operation returns normally although the key was neither found nor appended '
+            '(an insertion that is silently dropped)', p, props=ctx.props | {'C03'})
+
+
+def removal(ctx, p, k, result_found, result_missing):
+    E, z, ms = ctx.E, p.z, p.ms
+    nm = ctx.body.name
+    K = p.arg[k] if k is not None else None
+    if p.hits or k is None:
+        ctx.classes['hit'] += 1
+        if k is not None:
+            h = p.hits[-1]
+            idx = h[2]
+            ctx.req('SCAN', tag_eq(z, h[3], K), nm + ':hit', 'the matching comparison was not against the supplied key', p)
+        else:
+            idx = p.idx0
+        last = ms.len      # len after the removal == index of the former last slot
+        ok_len = p.len_is(-1)
+        ctx.req('OUT', ok_len, nm + ':hit', 'removing a present key must decrease len by exactly one', p)
+        first = p.reads[0] if p.reads else None
+        ctx.req('OUT', first is not None and z.entails_eq(first[2], idx), nm + ':hit',
+                'the slot moved out first must be the slot whose key matched', p)
+        # compaction: either h was the last slot, or the former last slot now sits at h
+        if z.entails_eq(idx, last):
+            ok = p.contents_are([])
+        else:
+            ok = p.contents_are([(idx, (stored(p.mid, last, 0), stored(p.mid, last, 1)))])
+        ctx.req('OUT', ok, nm + ':hit',
+                'after removing slot h the former last entry must sit at h (or h was the last) and nothing else '
+                'may change', p)
+        ctx.req('OUT', result_found(p, idx), nm + ':hit-result', 'wrong result for a present key', p,
+                props=ctx.props | {'C12'})
+        return
+    ctx.classes['miss'] += 1
+    m = p.miss()
+    ctx.req('SCAN', tag_eq(z, m, K) or m == ('<empty>',), nm + ':miss',
+            '"not found" requires that every live key was compared with the supplied key', p)
+    ctx.req('OUT', p.untouched() and p.len_is(0), nm + ':miss', 'a failed removal must change nothing', p)
+    ctx.req('OUT', result_missing(p), nm + ':miss-result', 'wrong result for an absent key', p)
+
+
+def lookup(ctx, p, k, result_found, result_missing):
+    E, z = ctx.E, p.z
+    nm = ctx.body.name
+    K = p.arg[k]
+    ctx.req('OUT', p.untouched() and p.len_is(0), nm, 'a lookup must not change the container', p)
+    if p.hits:
+        ctx.classes['hit'] += 1
+        h = p.hits[-1]
+        ctx.req('SCAN', tag_eq(z, h[3], K), nm + ':hit', 'the matching comparison was not against the supplied key', p)
+        ctx.req('OUT', result_found(p, h[2]), nm + ':hit-result',
+                'the result for a present key must come from the slot whose key matched', p, props=ctx.props | {'C12'})
+        return
+    ctx.classes['miss'] += 1
+    m = p.miss()
+    ctx.req('SCAN', tag_eq(z, m, K) or m == ('<empty>',), nm + ':miss',
+            '"not found" requires that every live key was compared with the supplied key', p)
+    if result_missing is None:
+        ctx.req('OUT', False, nm + ':miss-result', 'must not return normally for an absent key', p)
+    else:
+        ctx.req('OUT', result_missing(p), nm + ':miss-result', 'wrong result for an absent key', p)
+
+
+# ------------------------------------------------------------------------------ result predicates
+def r_none(p, *_):
+    return is_none(p.val)
+
+
+def r_true(p, *_):
+    return is_bool(p.val, True)
+
+
+def r_false(p, *_):
+    return is_bool(p.val, False)
+
+
+def r_some_none(p, *_):
+    s = some_of(p.val)
+    return s is not None and is_none(s)
+
+
+def r_some_old_value(p, h):
+    s = some_of(p.val)
+    return s is not None and tag_eq(p.z, vtag(s), stored(p.mid, h, 1))
+
+
+def r_some_some_old_value(p, h):
+    s = some_of(p.val)
+    s2 = some_of(s) if s is not None else None
+    return s2 is not None and tag_eq(p.z, vtag(s2), stored(p.mid, h, 1))
+
+
+def r_some_old_pair(p, h):
+    s = some_of(p.val)
+    return s is not None and s[0] == 'tuple' and len(s[1]) == 2 \
+        and tag_eq(p.z, vtag(s[1][0]), stored(p.mid, h, 0)) and tag_eq(p.z, vtag(s[1][1]), stored(p.mid, h, 1))
+
+
+def r_some_old_key(p, h):
+    s = some_of(p.val)
+    return s is not None and tag_eq(p.z, vtag(s), stored(p.mid, h, 0))
+
+
+def r_old_value(p, h):
+    return tag_eq(p.z, vtag(p.val), stored(p.mid, h, 1))
+
+
+def r_old_pair(p, h):
+    s = p.val
+    return s[0] == 'tuple' and len(s[1]) == 2 \
+        and tag_eq(p.z, vtag(s[1][0]), stored(p.mid, h, 0)) and tag_eq(p.z, vtag(s[1][1]), stored(p.mid, h, 1))
+
+
+def r_ref_value(p, h):
+    return slot_ref(p.val, p.z, p.mid, h, (1,))
+
+
+def r_some_ref_value(p, h):
+    s = some_of(p.val)
+    return s is not None and slot_ref(s, p.z, p.mid, h, (1,))
+
+
+def r_some_ref_key(p, h):
+    s = some_of(p.val)
+    return s is not None and slot_ref(s, p.z, p.mid, h, (0,))
+
+
+def r_some_ref_pair(p, h):
+    s = some_of(p.val)
+    return s is not None and s[0] == 'tuple' and len(s[1]) == 2 \
+        and slot_ref(s[1][0], p.z, p.mid, h, (0,)) and slot_ref(s[1][1], p.z, p.mid, h, (1,))
+
+
+# ------------------------------------------------------------------------------ the tables
+MAP, SET = 'Map', 'set::Set'
+OCC, VAC, ENT = 'entry::OccupiedEntry', 'entry::VacantEntry', 'entry::Entry'
+
+INSERTIONS = {
+    # root: (props, key arg, value arg, keep stored key?, result when absent, result when present, refused)
+    (MAP, None, 'insert'): ({'C01', 'C12'}, 1, 2, True, r_none, r_some_old_value, None),
+    (MAP, None, 'insert_key_value'): ({'C01', 'C12'}, 1, 2, False, r_none, r_some_old_pair, None),
+    (MAP, None, 'checked_insert'): ({'C01', 'C12', 'C03'}, 1, 2, True, r_some_none, r_some_some_old_value, r_none),
+    (MAP, None, 'insert_unchecked'): ({'C18', 'C12'}, 1, 2, True, r_none, r_some_old_value, None),
+    (SET, None, 'insert'): ({'C07', 'C12'}, 1, None, True, r_true, r_false, None),
+    (SET, None, 'replace'): ({'C07', 'C12'}, 1, None, False, r_none, r_some_old_key, None),
+}
+
+REMOVALS = {
+    (MAP, None, 'remove'): ({'C01'}, 1, r_some_old_value, r_none),
+    (MAP, None, 'remove_entry'): ({'C01', 'C12'}, 1, r_some_old_pair, r_none),
+    (SET, None, 'remove'): ({'C07'}, 1, r_true, r_false),
+    (SET, None, 'take'): ({'C07', 'C12'}, 1, r_some_old_key, r_none),
+}
+
+LOOKUPS = {
+    (MAP, None, 'get'): ({'C01'}, 1, r_some_ref_value, r_none),
+    (MAP, None, 'get_mut'): ({'C01'}, 1, r_some_ref_value, r_none),
+    (MAP, None, 'get_key_value'): ({'C01', 'C12'}, 1, r_some_ref_pair, r_none),
+    (MAP, None, 'contains_key'): ({'C01'}, 1, r_true, r_false),
+    (MAP, 'Index', 'index'): ({'C01'}, 1, r_ref_value, None),
+    (MAP, 'IndexMut', 'index_mut'): ({'C01'}, 1, r_ref_value, None),
+    (SET, None, 'contains'): ({'C07'}, 1, r_true, r_false),
+    (SET, None, 'get'): ({'C07', 'C12'}, 1, r_some_ref_key, r_none),
+}
+
+
+def subjects_of(E, st, args):
+    """container ids reachable from each argument (entry state)"""
+    out = []
+    for a in args:
+        found = []
+
+        def walk(v, d=0):
+            if not isinstance(v, tuple) or not v or d > 6:
+                return
+            if v[0] == 'map':
+                found.append(v[1])
+            elif v[0] == 'ref' and v[2][0] in ('O', 'L'):
+                try:
+                    walk(E.load(st, v[2], quiet=True), d + 1)
+                except Exception:
+                    pass
+            elif v[0] == 'adt':
+                for x in v[3]:
+                    walk(x, d + 1)
+            elif v[0] == 'tuple':
+                for x in v[1]:
+                    walk(x, d + 1)
+        walk(a)
+        out.append(found)
+    return out
+
+
+def arg_tags(body):
+    """provenance tag of each parameter, by position (0 = receiver)"""
+    out = {}
+    for i in range(1, body.arg_count + 1):
+        nm = body.locals[i].get('name') or ('arg%d' % i)
+        out[i - 1] = ('arg', nm)
+    return out
+
+
+
+# ------------------------------------------------------------------------------ Entry API (C11)
+def _user_calls(p, what):
+    return [e for e in p.user if e[1].endswith(what)]
+
+
+def entry_self(p):
+    """entry-time value of the receiver (an Entry / OccupiedEntry / VacantEntry), refs followed"""
+    v = p.self0
+    return v
+
+
+def occ_parts(v):
+    """OccupiedEntry value -> index term"""
+    if v[0] == 'adt' and v[1] == OCC and v[3][0][0] == 'int':
+        return v[3][0][1]
+    return None
+
+
+def entry_variant(p):
+    """which variant of Entry the path is about: ('occ', index) | ('vac', key tag) | None"""
+    ent = p.E.facts.adts.get(ENT)
+    names = [v['name'] for v in ent['variants']] if ent else ['Occupied', 'Vacant']
+    selftag = p.arg[0]
+    for e in p.events:
+        if e[0] == 'variant' and e[1] == selftag:
+            nm = names[e[2]]
+            if nm == 'Occupied':
+                return ('occ', p.variant_fields.get(e[2]))
+            return ('vac', selftag + (e[2], 0, 'key'))
+    return None
+
+
+def h_entry(ctx, p):
+    """Map::entry(k): Occupied(index of the slot whose key matched) / Vacant(k) after a full miss"""
+    nm = 'entry'
+    z = p.z
+    K = p.arg[1]
+    ent = p.E.facts.adts.get(ENT)
+    names = [v['name'] for v in ent['variants']]
+    ctx.req('OUT', p.untouched() and p.len_is(0), nm, 'entry() must not change the container', p)
+    v = p.val
+    isent = v[0] == 'adt' and v[1] == ENT
+    if p.hits:
+        ctx.classes['hit'] += 1
+        h = p.hits[-1]
+        ctx.req('SCAN', tag_eq(z, h[3], K), nm + ':hit', 'the matching comparison was not against the supplied key', p)
+        ok = isent and names[v[2]] == 'Occupied' and occ_parts(v[3][0]) is not None \
+            and z.entails_eq(occ_parts(v[3][0]), h[2])
+        ctx.req('OUT', ok, nm + ':hit-result', 'a present key must give Occupied with the index of the matching slot', p)
+        return
+    ctx.classes['miss'] += 1
+    m = p.miss()
+    ctx.req('SCAN', tag_eq(z, m, K) or m == ('<empty>',), nm + ':miss',
+            'Vacant requires that every live key was compared with the supplied key', p)
+    ok = isent and names[v[2]] == 'Vacant' and v[3][0][0] == 'adt' and tag_eq(z, vtag(v[3][0][3][0]), K)
+    ctx.req('OUT', ok, nm + ':miss-result', 'an absent key must give Vacant holding the supplied key', p)
+
+
+def _vacant_insert(ctx, p, K, V, vprefix=None):
+    """VacantEntry::insert semantics (through the ordinary find-or-append core)"""
+    def absent(p, idx):
+        return r_ref_value(p, idx)
+
+    def present(p, h):
+        return r_ref_value(p, h)
+    p2 = p
+    p2.arg = dict(p.arg)
+    p2.arg['K'] = K
+    p2.arg['V'] = V
+    if vprefix is not None:
+        # the value is whatever the closure returned: take its tag from the slot that was written
+        cs = [t for (_, t) in p.ms.contents]
+        got = cs[-1][1] if cs else None
+        ok = isinstance(got, tuple) and len(got) >= 2 and got[0] == 'u' and got[1].endswith(vprefix)
+        ctx.req('OUT', ok, ctx.body.name + ':value', 'the stored value must be the result of the closure / Default', p)
+        p2.arg['V'] = got
+    insertion(ctx, p2, 'K', 'V', True, absent, present, None)
+
+
+def h_or_insert(kind):
+    def h(ctx, p):
+        nm = ctx.body.name
+        ev = entry_variant(p)
+        if ev is None:
+            ctx.req('OUT', False, nm, 'cannot tell which Entry variant this path handles', p)
+            return
+        calls = _user_calls(p, 'call_once') + _user_calls(p, 'Default::default')
+        if ev[0] == 'occ':
+            ctx.classes['occupied'] += 1
+            ctx.req('OUT', ev[1] is not None and r_ref_value(p, ev[1]) and p.untouched() and p.len_is(0), nm + ':occupied',
+                    'on an occupied entry the result must be the existing value of that slot and nothing may change', p)
+            ctx.req('ARMCALL', not calls, nm + ':occupied', 'the default closure must not run for an occupied entry', p)
+            return
+        ctx.classes['vacant'] += 1
+        K = ev[1]
+        if kind == 'value':
+            ctx.req('ARMCALL', not calls, nm + ':vacant', 'no user closure is involved in or_insert', p)
+            _vacant_insert(ctx, p, K, p.arg[1])
+        else:
+            want = 'Default::default' if kind == 'default' else 'call_once'
+            ok = len(calls) == 1 and calls[0][1].endswith(want)
+            if ok and kind in ('with', 'with_key'):
+                ok = calls[0][2][0] == p.arg[1]
+            if ok and kind == 'with_key':
+                ok = p.E.tag_mentions(calls[0][2], K)
+            ctx.req('ARMCALL', ok, nm + ':vacant',
+                    'on a vacant entry the closure (or Default) must run exactly once%s'
+                    % (' and receive the entry key' if kind == 'with_key' else ''), p)
+            _vacant_insert(ctx, p, K, None, want)
+    return h
+
+
+def h_and_modify(ctx, p):
+    nm = 'and_modify'
+    ev = entry_variant(p)
+    ent = p.E.facts.adts.get(ENT)
+    names = [v['name'] for v in ent['variants']]
+    calls = _user_calls(p, 'call_once')
+    v = p.val
+    isent = v[0] == 'adt' and v[1] == ENT
+    if ev is None:
+        ctx.req('OUT', False, nm, 'cannot tell which Entry variant this path handles', p)
+        return
+    if ev[0] == 'occ':
+        ctx.classes['occupied'] += 1
+        idx = ev[1]
+        ok = len(calls) == 1 and calls[0][2][0] == p.arg[1] and idx is not None \
+            and tag_eq(p.z, calls[0][2][1], ('tuple', ('slot', p.mid, idx, (1,))))
+        ctx.req('ARMCALL', ok, nm + ':occupied',
+                'on an occupied entry the closure must run exactly once, on the value of that slot', p)
+        only_value = (not p.ms.contents) or p.contents_are(
+            [(idx, (stored(p.mid, idx, 0), ('usermod', stored(p.mid, idx, 1))))])
+        ctx.req('OUT', only_value and p.len_is(0) and not p.reads and not p.writes, nm + ':occupied',
+                'and_modify may change nothing but the value of that slot', p)
+        ok = isent and names[v[2]] == 'Occupied' and occ_parts(v[3][0]) is not None \
+            and p.z.entails_eq(occ_parts(v[3][0]), idx)
+        ctx.req('OUT', ok, nm + ':occupied-result', 'and_modify must hand back the same occupied entry', p)
+        return
+    ctx.classes['vacant'] += 1
+    ctx.req('ARMCALL', not calls, nm + ':vacant', 'the closure must not run for a vacant entry', p)
+    ok = isent and names[v[2]] == 'Vacant' and v[3][0][0] == 'adt' and tag_eq(p.z, vtag(v[3][0][3][0]), ev[1])
+    ctx.req('OUT', ok and p.untouched() and p.len_is(0), nm + ':vacant-result',
+            'and_modify on a vacant entry must hand back the same vacant entry and change nothing', p)
+
+
+def h_occ(kind):
+    def h(ctx, p):
+        nm = ctx.body.name
+        idx = occ_parts(p.self0) if p.self0 is not None else None
+        if idx is None:
+            ctx.req('OUT', False, nm, 'cannot resolve the OccupiedEntry receiver', p)
+            return
+        ctx.classes['occupied'] += 1
+        if kind in ('key', 'get', 'get_mut', 'into_mut'):
+            sub = (0,) if kind == 'key' else (1,)
+            ctx.req('OUT', slot_ref(p.val, p.z, p.mid, idx, sub) and p.untouched() and p.len_is(0), nm,
+                    'must return a reference to the %s of the entry\'s own slot and change nothing'
+                    % ('key' if kind == 'key' else 'value'), p)
+        elif kind == 'insert':
+            ctx.req('ROUTE', p.contents_are([(idx, (stored(p.mid, idx, 0), p.arg[1]))]) and p.len_is(0)
+                    and not p.reads and not p.writes, nm,
+                    'must store the supplied value in the entry\'s own slot, keep its key, touch nothing else', p)
+            ctx.req('OUT', r_old_value(p, idx), nm + ':result', 'must return the previous value of that slot', p)
+        else:
+            p.idx0 = idx
+            removal(ctx, p, None, r_old_pair if kind == 'remove_entry' else r_old_value, None)
+    return h
+
+
+def h_vac_insert(ctx, p):
+    v = p.self0
+    if v is None or v[0] != 'adt' or v[1] != VAC:
+        ctx.req('OUT', False, 'insert', 'cannot resolve the VacantEntry receiver', p)
+        return
+    _vacant_insert(ctx, p, vtag(v[3][0]), p.arg[1])
+
+
+def h_vac_into_key(ctx, p):
+    v = p.self0
+    ok = v is not None and v[0] == 'adt' and tag_eq(p.z, vtag(p.val), vtag(v[3][0]))
+    ctx.req('OUT', ok and p.untouched() and p.len_is(0), 'into_key', 'must return the key the entry was created with', p)
+
+
+def _mk(fn, *a):
+    return lambda ctx, p: fn(ctx, p, *a)
+
+
+HANDLERS = {}
+for _k, (_props, _kk, _vv, _keep, _abs, _pres, _ref) in INSERTIONS.items():
+    HANDLERS[_k] = (_props, _mk(insertion, _kk, _vv, _keep, _abs, _pres, _ref))
+for _k, (_props, _kk, _f, _m) in REMOVALS.items():
+    HANDLERS[_k] = (_props, _mk(removal, _kk, _f, _m))
+for _k, (_props, _kk, _f, _m) in LOOKUPS.items():
+    HANDLERS[_k] = (_props, _mk(lookup, _kk, _f, _m))
+HANDLERS.update({
+    (MAP, None, 'entry'): ({'C11'}, h_entry),
+    (ENT, None, 'or_insert'): ({'C11', 'C12'}, h_or_insert('value')),
+    (ENT, None, 'or_insert_with'): ({'C11', 'C12'}, h_or_insert('with')),
+    (ENT, None, 'or_insert_with_key'): ({'C11', 'C12'}, h_or_insert('with_key')),
+    (ENT, None, 'or_default'): ({'C11', 'C12'}, h_or_insert('default')),
+    (ENT, None, 'and_modify'): ({'C11'}, h_and_modify),
+    (OCC, None, 'key'): ({'C11', 'C12'}, h_occ('key')),
+    (OCC, None, 'get'): ({'C11'}, h_occ('get')),
+    (OCC, None, 'get_mut'): ({'C11'}, h_occ('get_mut')),
+    (OCC, None, 'into_mut'): ({'C11'}, h_occ('into_mut')),
+    (OCC, None, 'insert'): ({'C11', 'C12'}, h_occ('insert')),
+    (OCC, None, 'remove'): ({'C11'}, h_occ('remove')),
+    (OCC, None, 'remove_entry'): ({'C11', 'C12'}, h_occ('remove_entry')),
+    (VAC, None, 'insert'): ({'C11', 'C12'}, h_vac_insert),
+    (VAC, None, 'into_key'): ({'C11', 'C12'}, h_vac_into_key),
+})
+
+
+def required_classes(key):
+    if key in INSERTIONS:
+        return {'hit', 'append'} | ({'neither'} if INSERTIONS[key][6] is not None else set())
+    if key in REMOVALS:
+        return {'hit', 'miss'}
+    if key in LOOKUPS:
+        return {'hit', 'miss'} if LOOKUPS[key][3] is not None else {'hit'}
+    if key == (MAP, None, 'entry'):
+        return {'hit', 'miss'}
+    if key[0] == ENT:
+        return {'occupied', 'vacant'}
+    if key[0] == OCC:
+        return {'occupied'}
+    if key == (VAC, None, 'insert'):
+        return {'hit', 'append'}
+    return set()
+
+
+def props_of_root(body):
+    h = HANDLERS.get(root_key(body))
+    return set(h[0]) if h else set()
+
+
+def anchors(pid):
+    """root keys whose schema serves property pid"""
+    return sorted(k for k, (props, _) in HANDLERS.items() if pid in props)
 
 
 def check_root(E, body, rr):
-    return {}
+    key = root_key(body)
+    digest = {'root_key': '%s/%s/%s' % key}
+    if rr is None or getattr(rr, 'args', None) is None:
+        return digest
+    E.root = body.id
+    E.chain = [body.id]
+    E.cur_span = body.span
+    E.in_unwind = False
+    tags = arg_tags(body)
+    subj = rr.subjects
+    first = subj[0] if subj else []
+    rets = [(s, v) for kind, s, v in rr.outcomes if kind == 'ret']
+    h = HANDLERS.get(key)
+    if h is not None:
+        props, fn = h
+        ctx = Ctx(E, body, set(props))
+        # entry-time receiver, references followed
+        self0 = None
+        if rr.args:
+            self0 = rr.args[0]
+            d = 0
+            while self0 is not None and self0[0] == 'ref' and d < 4:
+                try:
+                    self0 = E.load(rr.st0, self0[2], quiet=True)
+                except Exception:
+                    self0 = None
+                d += 1
+        for s, val in rets:
+            p = Path(E, body, s, val, first, dict(tags))
+            p.self0 = self0
+            p.idx0 = None
+            p.variant_fields = {}
+            # Entry receivers: the index of the Occupied variant as materialised on this path
+            for e in s.events:
+                if e[0] == 'variant-val':
+                    p.variant_fields[e[2]] = e[3]
+            fn(ctx, p)
+        digest['classes'] = dict(ctx.classes)
+        digest['paths'] = len(rets)
+        for c in sorted(required_classes(key)):
+            E.oblig('OUT', ctx.classes.get(c, 0) > 0, body.name + ':class-' + c,
+                    'no path of class "%s" was produced for this root: its schema would pass vacuously' % c,
+                    'unproven', props=sorted(ctx.props), sample='%d paths of class %s' % (ctx.classes.get(c, 0), c))
+        if not rets:
+            E.oblig('OUT', False, body.name, 'the root has no normal-return path at all', 'unproven',
+                    props=sorted(ctx.props))
+    E.chain = []
+    return digest
